@@ -1638,9 +1638,14 @@ class AstEval:
 
     async def ast_compare(self, arg):
         """Evaluate comparison operators by calling function based on class."""
-        left = arg.left
+        #
+        # each operand is evaluated exactly once, left to right; the evaluated values are
+        # passed to the comparison functions wrapped as constants
+        #
+        left = ast.Constant(value=await self.aeval(arg.left))
         for cmp_op, right in zip(arg.ops, arg.comparators):
             name = "ast_cmpop_" + cmp_op.__class__.__name__.lower()
+            right = ast.Constant(value=await self.aeval(right))
             val = await getattr(self, name, self.ast_not_implemented)(left, right)
             if not val:
                 return False
